@@ -8,10 +8,12 @@ from . import common as C
 FAMILIES = {
     "tree": "harness.check_tree",
     "values": "harness.check_values",
+    "card": "harness.check_card",
 }
 # property -> families whose judges print verdicts for it
 PROPS = {
-    "C03": ["tree"], "C04": ["tree"], "C05": ["values"], "C06": ["tree", "values"],
+    "C03": ["tree"], "C04": ["tree"], "C05": ["values"], "C06": ["tree", "values", "card"],
+    "C09": ["card"],
 }
 EXPLAIN = {}
 
